@@ -184,7 +184,7 @@ func runC01(c *core.Ctx) {
 
 	// several sources under one limit: every source by itself is subject to the limit, whatever the
 	// sources before it have consumed (exactly the limit, one less, one more, in one source or summed
-	// over two), also when the source that follows is nested ten, a thousand or a hundred thousand deep
+	// over two), also when the source that follows is nested ten, a thousand or twenty thousand deep (thorough tier: also a hundred thousand)
 	{
 		exact := map[int][]string{1: {"#c"}, 2: {"scalar A"}, 3: {"scalar A #c"}, 5: {"enum E { A }"}, 7: {"type T { a: Int }"}, 4: {"scalar A scalar B"}}
 		var tails []string
